@@ -280,3 +280,52 @@ def c13(chk):
                         canary=corrupt_ts_trace)
     chk.assumptions += ["leap seconds (:60) may be rejected or read as the preceding second (named deviation LeapSecondStandIn)",
                         "the calendar arithmetic of the spec is an independent transcription cross-checked by TLC in both directions"]
+
+
+# ------------------------------------------------------------------------------------------------
+# C10 — DID / DID URL syntax
+# ------------------------------------------------------------------------------------------------
+
+def flip_did_case(rows, k=3):
+    """canary: claim that a string the grammar accepts is invalid — the replay must object to the library accepting it"""
+    out = []
+    for r in rows:
+        if r["row"]["kind"] == "url" and r["out"].get("ok") and r["row"]["pfx"]["txt"] == "did:m:" and "%" not in r["row"]["body"]:
+            r = json.loads(json.dumps(r))
+            r["out"] = {"ok": False}
+            out.append(r)
+            if len(out) >= k:
+                break
+    if not out:
+        raise ToolError("canary: no accepted url row")
+    return out
+
+
+def corrupt_did_trace(evs):
+    for i in range(len(evs) // 2, len(evs)):
+        o = evs[i]["obs"]
+        if isinstance(o.get("url"), dict) and o["url"].get("ok"):
+            o["url"]["lm"] += 1
+            return "event %d method-id length altered" % (i + 1)
+    raise ToolError("canary: no accepted url event")
+
+
+@plan("C10")
+def c10(chk):
+    chk.rule = ("TLC enumerates every class string up to MaxLen (quick 4, thorough 5) over an 18-class alphabet (legal classes, "
+                "%, delimiters, whitespace, control, illegal ASCII, non-ASCII) after 'did:m:', a structured product of "
+                "method-id x path x query x fragment alternatives, prefix variants, and every (base, component, segment) setter "
+                "row with segments up to SegLen; the spec's transcription of the W3C grammar computes validity and the "
+                "decomposition. Each row is expanded to 2 concrete character variants and run through DIDUrl and CoreDID "
+                "(parse, FromStr, TryFrom, serde); accepted values must be valid, decompose as computed, print verbatim, "
+                "re-parse to themselves; setters must re-parse or leave the value unchanged; Eq/Ord/Hash agree on all pairs of "
+                "accepted values per chunk. One-sided judging: rejecting a valid string is counted, not an alarm.")
+    r = chk.mc("MCDidSyntax", "DidSyntax_%s.cfg" % chk.tier, workers=q(chk, 4, 12), timeout=q(chk, 600, 7000), heap=q(chk, "4g", "24g"))
+    rep = chk.replay(r["cases_file"], timeout=7000)
+    chk.canary_cases(r["cases_file"], flip_did_case)
+    n_ev, n_tr = q(chk, (4000, 1), (20000, 8))
+    record_and_validate(chk, "C10", "MCDidSyntaxTrace", "DidSyntaxTrace.cfg", n_ev, n_tr, "did_syntax/trace",
+                        canary=corrupt_did_trace)
+    chk.assumptions += ["named deviations: method-specific ids may begin/end with ':' (pinned by the upstream positive proptest); "
+                        "bare '?' / '#' are normalised away in DID URLs (pinned by upstream tests)",
+                        "class representatives are interchangeable inside a class (2 variants per row are executed)"]
